@@ -127,10 +127,18 @@ SWAPS = {k: v for k, v in SWAPS.items() if not v.endswith("_FAIL")}
 
 
 def run(cmd, env=None, timeout=1800, cwd=None):
+    # own process group, so that a time-out takes the whole tree (shell, python, TLC) with it
+    p = subprocess.Popen(cmd, shell=True, stdout=subprocess.PIPE, stderr=subprocess.STDOUT, text=True, env=env, cwd=cwd, start_new_session=True)
     try:
-        p = subprocess.run(cmd, shell=True, capture_output=True, text=True, timeout=timeout, env=env, cwd=cwd)
-        return p.returncode, p.stdout + p.stderr
+        out, _ = p.communicate(timeout=timeout)
+        return p.returncode, out
     except subprocess.TimeoutExpired:
+        import signal
+        try:
+            os.killpg(p.pid, signal.SIGKILL)
+        except OSError:
+            pass
+        p.wait()
         return 124, "timeout"
 
 
@@ -222,6 +230,9 @@ def main():
         wt = "%s/w%d" % (BASE, w)
         if not os.path.isdir(wt):
             subprocess.run(["git", "-C", REPO, "worktree", "add", "-q", "--detach", wt, "HEAD"], check=True)
+        else:       # left over from an interrupted campaign: back to HEAD
+            subprocess.run(["git", "-C", wt, "checkout", "-q", "--detach", subprocess.run(["git", "-C", REPO, "rev-parse", "HEAD"], capture_output=True, text=True).stdout.strip()])
+            subprocess.run(["git", "-C", wt, "checkout", "-q", "--", "."], check=True)
     queue, results, lock = list(reversed(todo)), [], threading.Lock()
     ts = [threading.Thread(target=worker, args=(w, queue, results, lock, a.out)) for w in range(a.workers)]
     for t in ts:
